@@ -757,6 +757,31 @@ pub fn e2_spec(id: &str, tier: &str) -> Option<crate::e2::E2Spec> {
                     scens.extend(v);
                 }
             }
+            // call graphs of the protocol model as real programs, three threads entering at
+            // different queries: nested cycles whose locks are handed over along chains
+            let graphs: Vec<(&str, Vec<Vec<u8>>)> = vec![
+                ("chain-handover", vec![vec![3], vec![2, 0], vec![3, 1], vec![3, 2]]),
+                ("four-nested", vec![vec![1], vec![2, 0], vec![3, 1], vec![2]]),
+                ("four-diamond", vec![vec![1, 2], vec![3], vec![3], vec![0]]),
+                ("two-heads", vec![vec![1], vec![2, 0], vec![1, 0]]),
+            ];
+            for (gi, (name, calls)) in graphs.iter().enumerate() {
+                if quick && gi >= 2 {
+                    break;
+                }
+                let p = progs::model_graph(name, calls);
+                scens.push(Scen {
+                    name: format!("{}-3t", p.name),
+                    prog: p,
+                    setup: vec![],
+                    threads: vec![vec![q(0)], vec![q(1)], vec![q(2)]],
+                    phase2_writes: vec![],
+                    phase2: false,
+                    bound: if quick { 1 } else { 2 },
+                    oracle: Oracle::Cycles,
+                    writer: vec![],
+                });
+            }
             Some(E2Spec { id: "C19", scens, cap_s: cap, rule: RULE_E2, assumptions: e2_assumptions() })
         }
         "C18" => {
